@@ -139,7 +139,7 @@ def rule_handshake(chk: Check, view: AsyncView, rid: str):
     chk.used(fi.qualname)
     r = ar.eval(fi.qualname)
     waits = _calls(r, lambda e: e.name.endswith(".result"))
-    ok = len(waits) == 1 and waits[0].recv[0] == "call" and str(waits[0].recv[1]).endswith("observation.popleft")
+    ok = len(waits) == 1 and waits[0].recv[0] == "call" and T.call_name(waits[0].recv).endswith("observation.popleft")
     chk.add(rid, "run_until_supervisor: waits on the oldest observation", ok, "run_until_supervisor must wait on observation.popleft() only", chk.loc(fi))
     arm = [e for e in r.events if e.kind == "store_attr" and e.name == "self._initial_step"]
     chk.add(rid, "run_until_supervisor: disarms the initial step", len(arm) == 1 and arm[0].term == T.FALSE and waits and arm[0].idx > waits[0].idx,
